@@ -334,6 +334,24 @@ def check_cases(ctx, cases):
             return mh_obs(mh)
 
         route("stream_with_reads", manual_with_reads)
+
+        def manual_reused_buffer():
+            # the download loop: one scratch buffer, refilled for every chunk and handed over as a
+            # memoryview (or as the bytearray itself); whatever was given to update() has been hashed when
+            # update() returns
+            mh = hashutil.MultiHash(hash_names=shared_names, length=length)
+            chunks = split(data, case["chunks"])
+            buf = bytearray(max([len(c) for c in chunks] + [1]))
+            view = memoryview(buf)
+            for i, c in enumerate(chunks):
+                buf[: len(c)] = c
+                mh.update(view[: len(c)] if i % 2 == 0 else bytearray(buf[: len(c)]))
+                if i % 2:
+                    buf[: len(c)] = bytes(len(c))
+            buf[:] = bytes(len(buf))
+            return mh_obs(mh)
+
+        route("stream_reused_buffer", manual_reused_buffer)
         route("from_file", lambda: mh_obs(hashutil.MultiHash.from_file(io.BytesIO(data), hash_names=shared_names, length=length)))
         route("short_reads", lambda: mh_obs(hashutil.MultiHash.from_file(ShortReader(data, case["reads"]), hash_names=shared_names, length=length)))
         route("nested_reads", lambda: mh_obs(hashutil.MultiHash.from_file(NestedReader(data), hash_names=shared_names, length=length)))
@@ -363,7 +381,7 @@ def check_cases(ctx, cases):
         # ---------------- oracle on the implementation: every route == hashlib, sha1_git == git blob id
         must_fail_nolen = any(x.endswith("_git") for x in names) and length is None
         for tag, (st, val) in obs.items():
-            uses_len = tag in ("stream", "stream_with_reads", "from_file", "short_reads", "nested_reads")
+            uses_len = tag in ("stream", "stream_with_reads", "stream_reused_buffer", "from_file", "short_reads", "nested_reads")
             if not known or (uses_len and must_fail_nolen):
                 if st != "err":
                     ctx.fail(case, f"route {tag}: an unknown name / git name without length is not rejected", "bad-names-accepted")
